@@ -110,58 +110,37 @@ let choice_of_tok (tok : string) : choice =
 let nth_choice (ids : int list) (i : int) : choice =
   match List.nth_opt ids i with Some k -> Chose (n_of_int k) | None -> Refused
 
-(* ---- ck ---- *)
-let do_ck toks now il =
-  match toks with
-  | secret :: ttl :: mac :: sv :: cv :: qs ->
-    let h = fun d -> ns_of_ints (hmac_sha256 (ints_of_hex secret) (List.map int_of_n d)) in
-    let forge dt t = generate h (n_of_int (wrap32 (now - dt))) t in
-    let c0 = generate h (n_of_int now) (mk_tuple mac sv cv) in
-    let now_ns = z_of_int (now * 1000000000 + 500000000) in
-    let ibits = match List.filter (fun t -> String.length t > 2 && String.sub t 0 2 = "r=") (tokens il) with
-      | t :: _ -> String.sub t 2 (String.length t - 2) | [] -> "" in
-    let r = List.mapi (fun qi q ->
-      match split '/' q with
-      | [src; mut; vm; vs; vc] ->
-        let c = if src = "g" then c0 else
-          (match split ',' src with
-           | [_; dt; fm; fs; fc] -> forge (int_of_string dt) (mk_tuple fm fs fc)
-           | _ -> []) in
-        let c = ns_of_ints (mutate (List.map int_of_n c) mut) in
-        let t = mk_tuple vm vs vc in
-        adm_verdict t (validate h (z_of_int (int_of_string ttl)) now_ns c t)
-          (if qi < String.length ibits then Some ibits.[qi] else None)
-      | _ -> "?") qs in
-    Printf.sprintf "now=%d c0=%s r=%s" now (hex_of_bytes c0) (String.concat "" r)
-  | _ -> "badline"
-
-(* ---- sq: a history on one CookieManager (state: the lifetime; the clock advances with W) ---- *)
+(* ---- sq: a history on one CookieManager, as a black box.  The cookies are the implementation's (opaque bytes read
+   from its output); the verdict expected for a presented byte string is the layout-free specification: accepted
+   iff it is one of the issued cookies, presented by the tuple it was issued for, within its lifetime.  For tuples
+   that are no Ethernet tuples, and for cookies dated in the future, the implementation may also reject. ---- *)
 let do_sq toks now il =
   match toks with
-  | secret :: ttl :: steps ->
-    let h = fun d -> ns_of_ints (hmac_sha256 (ints_of_hex secret) (List.map int_of_n d)) in
-    let ttl = ref (z_of_int (int_of_string ttl)) and cur = ref now and gens = ref [] in
-    let cm o = let (t', x) = cm_step h !ttl o in ttl := t'; x in
+  | ttl :: steps ->
+    let ttl = ref (int_of_string ttl) and cur = ref now in
+    let gens : int list list ref = ref [] and issued : issued_cookie list ref = ref [] in
     let itok = impl_tokens il in
     let outs = List.mapi (fun si st ->
+      let itk = if si < Array.length itok then itok.(si) else "" in
       match split '/' st with
       | ["G"; m; sv; cv] ->
-        (match cm (CGen (n_of_int !cur, mk_tuple m sv cv)) with
-         | CCookie c -> gens := !gens @ [c]; "c:" ^ hex_of_bytes c
-         | _ -> "MODELBUG")
+        let c = if String.length itk > 2 && String.sub itk 0 2 = "c:" then ints_of_hex (String.sub itk 2 (String.length itk - 2)) else [] in
+        gens := !gens @ [c];
+        issued := ((ns_of_ints c, mk_tuple m sv cv), n_of_int !cur) :: !issued;
+        if c = [] then "c:EMPTY" else itk
       | ["V"; src; mut; m; sv; cv] ->
-        let c = if src.[0] = 'g' then
-            (let i = int_of_string (String.sub src 1 (String.length src - 1)) in
-             if i < List.length !gens then List.nth !gens i else [])
-          else (match split ',' src with
-              | [_; dt; fm; fs; fc] -> generate h (n_of_int (wrap32 (now - int_of_string dt))) (mk_tuple fm fs fc)
-              | _ -> []) in
-        let c = ns_of_ints (mutate (List.map int_of_n c) mut) in
+        let i = (try int_of_string (String.sub src 1 (String.length src - 1)) with _ -> -1) in
+        let c = if i >= 0 && i < List.length !gens then List.nth !gens i else [] in
+        let c = ns_of_ints (mutate c mut) in
         let t = mk_tuple m sv cv in
-        let iv = if si < Array.length itok && String.length itok.(si) = 1 then Some itok.(si).[0] else None in
-        (match cm (CVal (z_of_int (!cur * 1000000000 + 500000000), c, t)) with
-         | CVerdict b -> adm_verdict t b iv | _ -> "MODELBUG")
-      | ["L"; n] -> ignore (cm (CSetTTL (z_of_int (int_of_string n)))); "-"
+        let now_ns = z_of_int (!cur * 1000000000 + 500000000) in
+        let mdl = ideal_validate !issued (z_of_int !ttl) now_ns c t in
+        let may = future_dated !issued now_ns c in
+        (match (if String.length itk = 1 then Some itk.[0] else None) with
+         | Some ('0' | '1' as ch) ->
+           if admissible_verdict2 may t mdl (ch = '1') then String.make 1 ch else (if mdl then "1" else "0")
+         | _ -> if mdl then "1" else "0")
+      | ["L"; n] -> ttl := int_of_string n; "-"
       | ["W"; k] -> cur := now + int_of_string k; "-"
       | _ -> "badstep") steps in
     String.concat " " (Printf.sprintf "now=%d" now :: outs)
@@ -182,14 +161,19 @@ let do_tags toks =
 let strip pfx s = let n = String.length pfx in String.sub s n (String.length s - n)
 let do_tb toks now il =
   match toks with
-  | secret :: ttl :: g :: occ :: nx :: ";" :: ops ->
-    let h = fun d -> ns_of_ints (hmac_sha256 (ints_of_hex secret) (List.map int_of_n d)) in
+  | ttl :: g :: occ :: nx :: ";" :: ops ->
     let (lo, hi) = match split '-' (strip "G=" g) with [a; b] -> (int_of_string a, int_of_string b) | _ -> (1, 0) in
-    let mk_env ttl_s cur = { e_H = h; e_ttl = z_of_int (ttl_s * 1000000000); e_now_s = n_of_int cur;
-              e_now_ns = z_of_int (cur * 1000000000 + 500000000);
-              e_grp = (fun ((_, sv), _) -> let s = int_of_n sv in lo <= s && s <= hi) } in
-    let env = ref (mk_env (int_of_string ttl) now) in
+    (* the cookie manager is a black box: the cookies it handed out (opaque bytes, taken from the implementation's
+       output), for which tuple and when; acceptance is decided by the layout-free specification *)
+    let issued : issued_cookie list ref = ref [] in
     let cur_ttl = ref (int_of_string ttl) and cur_now = ref now in
+    let pado_next = ref [] in
+    let mk_env () = { e_gen = (fun _ -> !pado_next);
+              e_val = (fun c t -> ideal_validate !issued (z_of_int (!cur_ttl * 1000000000))
+                                    (z_of_int (!cur_now * 1000000000 + 500000000)) c t);
+              e_grp = (fun ((_, sv), _) -> let s = int_of_n sv in lo <= s && s <= hi) } in
+    let env = ref (mk_env ()) in
+    let issue (c : int list) (t : tuple) = issued := ((ns_of_ints c, t), n_of_int !cur_now) :: !issued in
     let s = ref st0 in
     let dead = ref false in
     let nonbulk = ref [] in          (* (uid, sid, tuple) in creation order, reversed *)
@@ -208,11 +192,12 @@ let do_tb toks now il =
     let nx = strip "next=" nx in
     if nx <> "-" then ignore (do_step (SETNEXT (n_of_int (int_of_string nx))));
     let last_pado = ref [] in
+    let op_cookies = ref [] in       (* cookies the harness generated for the current op, in order *)
+    let next_cookie () = match !op_cookies with c :: r -> op_cookies := r; c | [] -> [] in
     let cookie spec =
       match split ':' spec with
       | ["P"; m] -> mutate !last_pado m
-      | [dt; fm; fs; fc; m] ->
-        mutate (List.map int_of_n (generate h (n_of_int (wrap32 (now - int_of_string dt))) (mk_tuple fm fs fc))) m
+      | ["g"; fm; fs; fc; m] -> let c = next_cookie () in issue c (mk_tuple fm fs fc); mutate c m
       | _ -> [] in
     let tag ty v = List.map int_of_n (add_tag (n_of_int ty) (ns_of_ints v)) in
     let tags spec = if spec = "-" then [] else
@@ -241,9 +226,18 @@ let do_tb toks now il =
       | Some (OSynced u) -> Printf.sprintf "synced:u%d" (int_of_n u) in
     let itok = impl_tokens il in
     let outs = List.mapi (fun oi tok ->
-      let itk = if oi < Array.length itok then itok.(oi) else "" in
-      match split '/' tok with
-      | ["I"; m; sv; cv] -> show (do_step (PADI (mk_tuple m sv cv))) None
+      let itk_full = if oi < Array.length itok then itok.(oi) else "" in
+      let (itk, cks) = match String.index_opt itk_full '|' with
+        | Some i -> (String.sub itk_full 0 i, String.sub itk_full (i + 1) (String.length itk_full - i - 1))
+        | None -> (itk_full, "") in
+      op_cookies := (if cks = "" then [] else List.map ints_of_hex (split ';' cks));
+      let res = match split '/' tok with
+      | ["I"; m; sv; cv] ->
+        let t = mk_tuple m sv cv in
+        (match String.split_on_char ':' itk with
+         | ["pado"; hx] -> pado_next := bytes_of_hex hx; issue (ints_of_hex hx) t
+         | _ -> pado_next := []);
+        show (do_step (PADI t)) None
       | ["R"; m; sv; cv; spec] -> let t = mk_tuple m sv cv in
         show (do_step (PADR (t, ns_of_ints (tags spec), choice_of_tok itk))) (Some t)
       | ["T"; m; sv; cv; sid] -> show (do_step (PADT (mk_tuple m sv cv, n_of_int (int_of_string sid)))) None
@@ -260,8 +254,8 @@ let do_tb toks now il =
             let rec first j = if j >= i then i else if arr.(j) = k then j else first (j + 1) in
             string_of_int (first 0)) keys in
         "kcls:" ^ String.concat "." cls
-      | ["W"; k] -> cur_now := now + int_of_string k; env := mk_env !cur_ttl !cur_now; "-"
-      | ["L"; n] -> cur_ttl := int_of_string n; env := mk_env !cur_ttl !cur_now; "-"
+      | ["W"; k] -> cur_now := now + int_of_string k; "-"
+      | ["L"; n] -> cur_ttl := int_of_string n; "-"
       | "X" :: sid :: m :: sv :: cv :: rest ->
         let t = mk_tuple m sv cv in
         let a = match rest with [u] -> bytes_of_hex u | _ -> [] in
@@ -281,7 +275,7 @@ let do_tb toks now il =
         let r1 = match do_step (HASYNC (n_of_int (int_of_string sid), t, [])) with
           | Some (OSynced u) -> nonbulk := (int_of_n u, int_of_string sid, t) :: !nonbulk; Printf.sprintf "u%d" (int_of_n u)
           | _ -> "none" in
-        let ck = List.map int_of_n (generate h (n_of_int now) rt) in
+        let ck = next_cookie () in issue ck rt;
         let jc = match String.split_on_char ':' itk with
           | "join" :: _ :: sid2 :: _ -> (match int_of_string_opt sid2 with Some k -> Chose (n_of_int k) | None -> Refused)
           | _ -> Policy in
@@ -296,7 +290,7 @@ let do_tb toks now il =
         for i = 0 to n - 1 do
           let mac = [10;0;0;0;(i lsr 8) land 255; i land 255] in
           let t : tuple = ((ns_of_ints mac, n_of_int (int_of_string sv)), N0) in
-          let ck = List.map int_of_n (generate h (n_of_int now) t) in
+          let ck = next_cookie () in issue ck t;
           match do_step (PBEGIN (t, ns_of_ints (tag 0x0104 ck), (if itk = "" then Policy else nth_choice pids i))) with
           | Some (OPend (_, u)) -> uids := u :: !uids
           | _ -> ()
@@ -306,9 +300,10 @@ let do_tb toks now il =
           | Some (OPads (sid, _)) -> sids := int_of_n sid :: !sids
           | _ -> ()) (List.rev !uids);
         if !dead then "INADMISSIBLE" else
-        (* every handler that got an id reaches the gate, and (HEAD) holds sidMu there *)
-        let k = List.length !uids in
-        "ovl:" ^ String.concat "+" (List.map string_of_int (List.sort compare !sids)) ^ Printf.sprintf "/g%d.%d" k k
+        (* where the harness's gate was entered (with sidMu held or not) depends on the code layout, not on the
+           property: it is recorded in the implementation's token for the evidence and echoed here *)
+        let gate = match String.index_opt itk '/' with Some i -> String.sub itk i (String.length itk - i) | None -> "" in
+        "ovl:" ^ String.concat "+" (List.map string_of_int (List.sort compare !sids)) ^ gate
       | ["C"; n; sv] ->
         let n = int_of_string n in
         let cids = ids_of itk "conc:" in
@@ -316,14 +311,15 @@ let do_tb toks now il =
         for i = 0 to n - 1 do
           let mac = [6;0;0;0;(i lsr 8) land 255; i land 255] in
           let t : tuple = ((ns_of_ints mac, n_of_int (int_of_string sv)), N0) in
-          let ck = List.map int_of_n (generate h (n_of_int now) t) in
+          let ck = next_cookie () in issue ck t;
           match do_step (PADR (t, ns_of_ints (tag 0x0104 ck), (if itk = "" then Policy else nth_choice cids i))) with
           | Some (OPads (sid, _)) -> sids := int_of_n sid :: !sids; incr conc_extra
           | _ -> ()
         done;
         if !dead then "INADMISSIBLE" else
         "conc:" ^ String.concat "+" (List.map string_of_int (List.sort compare !sids))
-      | _ -> "badop") ops in
+      | _ -> "badop" in
+      if cks = "" then res else res ^ "|" ^ cks) ops in
     let nb = List.rev !nonbulk in
     let flags = List.map (fun (u, sid, t) ->
       let a = match lookup_sid !s (n_of_int sid) with Some x when int_of_n x.s_uid = u -> 1 | _ -> 0 in
@@ -355,7 +351,6 @@ let () =
         match tokens line with
         | [] -> ""
         | "tags" :: r -> do_tags r
-        | "ck" :: r -> (match impl_now il with Some now -> do_ck r now il | None -> "noclock")
         | "sq" :: r -> (match impl_now il with Some now -> do_sq r now il | None -> "noclock")
         | "tb" :: r -> (match impl_now il with Some now -> do_tb r now il | None -> "noclock")
         | _ -> "badline"
